@@ -22,6 +22,7 @@ CONSTANTS SecSeq, N, DayNo,
   Law,          \* "rescale" | "unsplit" | "extend" | "project"
   BuyQs, SellQs, SplitKinds, Timings,
   PrefixDays,   \* extend: day slots 1..PrefixDays form the prefix
+  EventKinds,   \* extend: cost-event kinds that may occur (at most one event, inside the prefix)
   MaxCells
 
 VARIABLES La, ta, da, pca, daya, sia, poola, claimeda, holda, rema, legsa, erra,
@@ -45,8 +46,27 @@ EmptyCell == GenCellOf(0, 1, 0, 0, 1, 0, 0)
 BaseCells == [bq : BuyQs, sq : SellQs]
 NonEmpty(g) == Cardinality({d \in Days : g[d].bq # 0}) + Cardinality({d \in Days : g[d].sq # 0})
 BaseLedgers == {g \in [Days -> BaseCells] : MaxCells = 0 \/ NonEmpty(g) <= MaxCells}
-SecLedger(s, g, spl) == [d \in Days |-> GenCellOf(SecNo(s) - 1, d, g[d].bq, g[d].sq, 1, spl[d], 0)]
+SecLedgerEv(s, g, spl, ev) == [d \in Days |-> GenCellOf(SecNo(s) - 1, d, g[d].bq, g[d].sq, 1, spl[d], ev[d])]
+SecLedger(s, g, spl) == SecLedgerEv(s, g, spl, [d \in Days |-> 0])
 NoSplits == [d \in Days |-> 0]
+
+\* shares held at the start of day d ("end" split timing), from the ledger alone
+RECURSIVE HeldBefore(_, _, _)
+HeldBefore(l, s, d) ==
+  IF d = 1 THEN Zero
+  ELSE Mul(Sub(Add(HeldBefore(l, s, d - 1), l[s][d - 1].bq), l[s][d - 1].sq), l[s][d - 1].split)
+NetOf(c) == Sub(c.ac, Sub(c.cr, c.crf))
+\* a canonical admissible apportionment: each effective event goes, whole, on the earliest acquisition day
+FirstLotDist(l) ==
+  [s \in Secs |-> [e \in Days |-> [a \in Days |->
+     LET c == l[s][e]
+         el == {x \in Days : x <= e /\ IsPos(l[s][x].bq)}
+     IN IF (~IsZero(c.ac) \/ ~IsZero(c.cr)) /\ IsPos(HeldBefore(l, s, e)) /\ el # {} /\ a = (CHOOSE x \in el : \A y \in el : x <= y)
+        THEN NetOf(c) ELSE Zero]]]
+DistNonNeg(l, dd) ==
+  \A s \in Secs, a \in Days :
+    IsPos(l[s][a].bq) =>
+      ~IsNeg(Add(Add(Mul(l[s][a].bq, l[s][a].bp), l[s][a].bf), SumRange([e \in Days |-> dd[s][e][a]], 1, N)))
 
 -----------------------------------------------------------------------------
 (* Transformations *)
@@ -79,16 +99,24 @@ Project(ledger, s) == [t \in Secs |-> IF t = s THEN ledger[t] ELSE [d \in Days |
 -----------------------------------------------------------------------------
 (* Pairs enumerated as initial states *)
 
-Start(la, lb, tm, p) ==
-  /\ A!InitWith(la, tm, ZeroDist, "start")
-  /\ B!InitWith(lb, tm, ZeroDist, "start")
+StartD(la, lb, tm, p, dda, ddb) ==
+  /\ A!InitWith(la, tm, dda, "start")
+  /\ B!InitWith(lb, tm, ddb, "start")
   /\ par = p
+Start(la, lb, tm, p) == StartD(la, lb, tm, p, ZeroDist, ZeroDist)
 
 Init ==
-  \/ /\ Law = "rescale"
+  \/ /\ Law = "rescale" /\ Len(SecSeq) = 1
      /\ \E g \in BaseLedgers, x \in Days, k \in SplitKinds, tm \in Timings :
           LET s == SecSeq[1]
               l == [t \in Secs |-> SecLedger(t, g, [d \in Days |-> IF d = x THEN k ELSE 0])]
+          IN Start(l, Rescale(l, tm, s, x), tm, [law |-> Law, sec |-> s, x |-> x, f |-> l[s][x].split])
+  \* two securities: only the second is split and rewritten; the first must not notice
+  \/ /\ Law = "rescale" /\ Len(SecSeq) = 2
+     /\ \E g1 \in BaseLedgers, g2 \in BaseLedgers, x \in Days, k \in SplitKinds, tm \in Timings :
+          LET s == SecSeq[2]
+              l == [t \in Secs |-> IF t = s THEN SecLedger(t, g2, [d \in Days |-> IF d = x THEN k ELSE 0])
+                                    ELSE SecLedger(t, g1, NoSplits)]
           IN Start(l, Rescale(l, tm, s, x), tm, [law |-> Law, sec |-> s, x |-> x, f |-> l[s][x].split])
   \/ /\ Law = "unsplit"
      /\ \E g \in BaseLedgers, x \in Days, y \in Days, k \in SplitKinds :
@@ -100,9 +128,14 @@ Init ==
              /\ Start(l, WithSplitPair(l, s, x, y, f), "end", [law |-> Law, sec |-> s, x |-> x, y |-> y, f |-> f])
   \/ /\ Law = "extend"
      /\ DayNo[PrefixDays + 1] - DayNo[PrefixDays] > 30
-     /\ \E g \in BaseLedgers, spl \in {NoSplits} \cup {[d \in Days |-> IF d = x THEN k ELSE 0] : x \in (PrefixDays + 1)..N, k \in SplitKinds} :
-          LET l == [t \in Secs |-> SecLedger(t, g, spl)]
-          IN Start(Prefix(l, PrefixDays), l, "end", [law |-> Law, p |-> PrefixDays])
+     /\ \E g \in BaseLedgers,
+           spl \in {NoSplits} \cup {[d \in Days |-> IF d = x THEN k ELSE 0] : x \in (PrefixDays + 1)..N, k \in SplitKinds},
+           ev \in {[d \in Days |-> 0]} \cup {[d \in Days |-> IF d = e THEN k ELSE 0] : e \in 1..PrefixDays, k \in EventKinds} :
+          LET l == [t \in Secs |-> SecLedgerEv(t, g, spl, ev)]
+              pl == Prefix(l, PrefixDays)
+              dd == FirstLotDist(pl)      \* later transactions never change what an earlier event did
+          IN /\ DistNonNeg(pl, dd)
+             /\ StartD(pl, l, "end", [law |-> Law, p |-> PrefixDays], dd, dd)
   \/ /\ Law = "project"
      /\ \E g1 \in BaseLedgers, g2 \in BaseLedgers :
           LET l == [t \in Secs |-> SecLedger(t, IF t = SecSeq[1] THEN g1 ELSE g2, NoSplits)]
@@ -136,7 +169,7 @@ RescaleLaw ==
        /\ Len(legsa) = Len(legsb)
        /\ \A i \in 1..Len(legsa) :
             /\ KeyEq(legsa[i], legsb[i]) /\ MoneyEq(legsa[i], legsb[i])
-            /\ legsb[i].q = (IF PreSplit(ta, legsa[i].d, x) THEN Mul(legsa[i].q, f) ELSE legsa[i].q)
+            /\ legsb[i].q = (IF legsa[i].s = s /\ PreSplit(ta, legsa[i].d, x) THEN Mul(legsa[i].q, f) ELSE legsa[i].q)
        /\ poola = poolb
 
 IdentityLaw ==
